@@ -124,7 +124,10 @@ def convert_array_2d(
     is_native = len(array_2d.shape) == 2
 
     if is_native and not skip_mask:
-        array_2d *= np.invert(mask_2d)
+        # masked pixels are set to zero by assignment: a product with the inverted mask leaves NaN wherever the
+        # input holds inf or NaN at a masked pixel (e.g. `1.0 / array` of a natively stored array, whose masked
+        # pixels are zero)
+        array_2d[np.array(mask_2d, dtype="bool")] = 0
 
     if is_native == store_native:
         return array_2d
